@@ -462,7 +462,7 @@ func checkC11(c *Ctx, r *Report) {
 		r5.guard(f, "delete(rsvp, p)", dels, "closed || expire.Before(now)", anyEdge(edgeBool(isLoadOfField(relT+".closed"), true), expired), nil)
 		// and every expired/closed entry is deleted: the true edges lead to the delete
 		var hit []CFGEdge
-		for _, b := range f.Blocks {
+		for _, b := range blocksDeep(f) {
 			for s := range b.Succs {
 				if expired(b, s) || edgeBool(isLoadOfField(relT+".closed"), true)(b, s) {
 					hit = append(hit, CFGEdge{b, s})
@@ -490,7 +490,7 @@ func checkC11(c *Ctx, r *Report) {
 		r5.guard(f, "constraints.cleanupPeer(p)", cps, "Connectedness(p) != Connected", notConn, nil)
 		// not-connected path deletes the reservation (when present) and cleans the constraints
 		var nc []CFGEdge
-		for _, b := range f.Blocks {
+		for _, b := range blocksDeep(f) {
 			for s := range b.Succs {
 				if notConn(b, s) {
 					nc = append(nc, CFGEdge{b, s})
